@@ -31,13 +31,13 @@ theorem writer_checksum (env : Env) (i : Inst) (idx orig bs : Nat) (p : Bytes) (
 /-- `encode` stores it in every fragment (combine with C07.encode_wire). -/
 theorem encode_checksum (env : Env) (be : Backend) (i : Inst) (data : Bytes) (frags : List Bytes)
     {bsOK : Nat → Prop} (hbe : EncodeOK be i.k i.m bsOK) (hbs : bsOK (blockSize i data.length))
-    (hlen : data.length < 2 ^ 31) (hct : i.ct % 256 = 2)
+    (hct : i.ct % 256 = 2)
     (h : encode env be i data = .ok frags) :
     ∀ idx (hi : idx < frags.length), ∃ (p : Bytes) (hdr : Header), frags[idx] = hdr.bytes ++ p ∧
       hdr.md.chksum = (if env.legacy then crcAlt p else crcStd p) :: List.replicate 7 0 ∧
       hdr.md.ctype = i.ct ∧ hdr.md.mismatch = 0 := by
   intro idx hi
-  obtain ⟨p, _, hf, _⟩ := (LecProps.C07.encode_wire env be i data frags hbe hbs hlen h).2.2 idx hi
+  obtain ⟨p, _, hf, _⟩ := (LecProps.C07.encode_wire env be i data frags hbe hbs h).2.2 idx hi
   exact ⟨p, _, hf, writer_checksum env i idx _ _ p hct, rfl, rfl⟩
 
 /-- reader side, host-order fragment with checksum type CRC32. -/
